@@ -1,5 +1,203 @@
-"""Generated/Lifecycle.lean (filled in with the life-cycle model; see lifecycle translator)."""
+"""Generated/Lifecycle.lean: syntactic facts of the life-cycle of DirectionalRadiosityFast
+(from the AST only): to_dict key -> attribute list and its encoding loop, from_dict /
+from_read decoding, __eq__ body, and for every method the sets of `self._x` attributes it
+loads and stores (properties and self-method calls inlined transitively), the module-level
+kernels it calls, and the in-place mutation sites whose target is a parameter."""
+import ast
+from .pyast import module, func, src, dotted, TranslationError, lean_str
+
+FAST = 'sparrowpy/classes/RadiosityFast.py'
+CLS = 'DirectionalRadiosityFast'
+MUTATING_CALLS = {'append', 'fill', 'extend', 'sort', 'rotate', 'insert', 'pop', 'clear', 'update'}
+
+
+def class_node():
+    for n in module(FAST).body:
+        if isinstance(n, ast.ClassDef) and n.name == CLS:
+            return n
+    raise TranslationError('class not found')
+
+
+def methods():
+    out = {}
+    props = set()
+    for n in class_node().body:
+        if isinstance(n, ast.FunctionDef):
+            out[n.name] = n
+            for d in n.decorator_list:
+                if dotted(d) == 'property':
+                    props.add(n.name)
+    return out, props
+
+
+def direct_rw(fn, meths, props):
+    """(reads, writes, self-calls, property uses, kernel calls, param mutation sites) of one method body."""
+    reads, writes, calls, puses, kernels, mut = set(), set(), set(), set(), set(), []
+    params = {a.arg for a in fn.args.args if a.arg not in ('self', 'cls')}
+
+    def base_self_attr(node):
+        """self._x  (possibly under subscripts) -> '_x'"""
+        while isinstance(node, ast.Subscript):
+            node = node.value
+        if isinstance(node, ast.Attribute) and isinstance(node.value, ast.Name) and node.value.id == 'self':
+            return node.attr
+        return None
+
+    def base_name(node):
+        while isinstance(node, (ast.Subscript, ast.Attribute)):
+            node = node.value
+        return node.id if isinstance(node, ast.Name) else None
+
+    for n in ast.walk(fn):
+        if isinstance(n, ast.Attribute) and isinstance(n.value, ast.Name) and n.value.id == 'self':
+            a = n.attr
+            if isinstance(n.ctx, ast.Store):
+                if a.startswith('_'):
+                    writes.add(a)
+            else:
+                if a in props:
+                    puses.add(a)
+                elif a in meths:
+                    pass
+                elif a.startswith('_'):
+                    reads.add(a)
+        if isinstance(n, (ast.Assign, ast.AugAssign)):
+            targets = n.targets if isinstance(n, ast.Assign) else [n.target]
+            for t in targets:
+                if isinstance(t, ast.Subscript):
+                    a = base_self_attr(t)
+                    if a is not None and a.startswith('_'):
+                        writes.add(a)
+                    b = base_name(t)
+                    if b in params:
+                        mut.append('%s:%d:%s' % (fn.name, n.lineno, src(t)[:60]))
+                if isinstance(n, ast.AugAssign) and isinstance(t, ast.Name) and t.id in params:
+                    mut.append('%s:%d:%s' % (fn.name, n.lineno, src(n)[:60]))
+                if isinstance(t, ast.Attribute) and base_name(t) in params:
+                    mut.append('%s:%d:%s' % (fn.name, n.lineno, src(t)[:60]))
+        if isinstance(n, ast.Call):
+            f = n.func
+            if isinstance(f, ast.Attribute):
+                if isinstance(f.value, ast.Name) and f.value.id == 'self' and f.attr in meths and f.attr not in props:
+                    calls.add(f.attr)
+                elif f.attr in MUTATING_CALLS:
+                    a = base_self_attr(f.value)
+                    if a is not None and a.startswith('_'):
+                        writes.add(a)
+                    b = base_name(f.value)
+                    if b in params:
+                        mut.append('%s:%d:%s' % (fn.name, n.lineno, src(n)[:60]))
+                d = dotted(f)
+                if d and (d.startswith('geometry.') or d.startswith('form_factor.') or d.startswith('pf.io.')):
+                    kernels.add(d)
+            elif isinstance(f, ast.Name) and (f.id.startswith('_') or f.id.startswith('get_scattering')):
+                kernels.add(f.id)
+    return reads, writes, calls, puses, kernels, mut
+
+
+def closure(meths, props):
+    direct = {m: direct_rw(fn, meths, props) for m, fn in meths.items()}
+    full = {}
+
+    def go(m, seen):
+        if m in full:
+            return full[m]
+        if m in seen:
+            return (set(), set(), set(), [])
+        seen = seen | {m}
+        r, w, calls, puses, k, mut = direct[m]
+        R, W, K, M = set(r), set(w), set(k), list(mut)
+        for c in list(calls) + list(puses):
+            r2, w2, k2, m2 = go(c, seen)
+            R |= r2
+            W |= w2
+            K |= k2
+            M += m2
+        full[m] = (R, W, K, M)
+        return full[m]
+    for m in meths:
+        go(m, set())
+    return full
 
 
 def generate():
-    return '/- GENERATED placeholder -/\nnamespace Sparrow.Generated\nend Sparrow.Generated\n', {}
+    meths, props = methods()
+    full = closure(meths, props)
+    # ---- to_dict
+    td = meths['to_dict']
+    dct = None
+    for n in ast.walk(td):
+        if isinstance(n, ast.Assign) and isinstance(n.value, ast.Dict):
+            dct = n.value
+    if dct is None:
+        raise TranslationError('to_dict: no dict literal')
+    keys = []
+    for k, v in zip(dct.keys, dct.values):
+        a = dotted(v)
+        if not (isinstance(k, ast.Constant) and a and a.startswith('self._')):
+            raise TranslationError('to_dict: entry ' + src(k))
+        keys.append((k.value, a[5:]))
+    loop = [n for n in td.body if isinstance(n, ast.For)]
+    enc_none = enc_arr = False
+    if len(loop) == 1:
+        t = src(loop[0])
+        enc_none = "value is None" in t and "'None'" in t
+        enc_arr = 'isinstance(value, np.ndarray)' in t and 'tolist()' in t
+    # ---- from_dict / from_read decode the marker?
+    fd = src(meths['from_dict'])
+    fr = src(meths['from_read'])
+    dec_dict = "== 'None'" in fd and 'cls(**input_dict)' in fd
+    dec_read = "== 'None'" in fr
+    if 'cls(**input_dict)' not in fd:
+        raise TranslationError('from_dict does not construct cls(**input_dict)')
+    if 'cls.from_dict(' not in fr:
+        raise TranslationError('from_read does not go through from_dict')
+    eq = src(meths['__eq__'])
+    eq_todict = 'deepdiff.DeepDiff(self.to_dict(), other.to_dict())' in eq
+    # constructor parameters (must equal to_dict keys for cls(**d) to work)
+    init_params = [a.arg for a in meths['__init__'].args.args[1:]]
+    # conversions of __init__ (kind per param)
+    from . import checkgen
+    kinds = {p: k for p, k, _ in checkgen.init_fields()}
+
+    API = ['set_wall_brdf', 'set_air_attenuation', 'bake_geometry', 'init_source_energy',
+           'calculate_energy_exchange', 'collect_energy_receiver_patchwise', 'collect_energy_receiver_mono',
+           'calculate_direct_sound', 'to_dict', 'check', '__eq__']
+    for m in API:
+        if m not in full:
+            raise TranslationError('method %s missing' % m)
+
+    def lst(xs):
+        return '[' + ', '.join(lean_str(x) for x in xs) + ']'
+    t = []
+    t.append('/- GENERATED by harness/translate/lifecycle.py from class DirectionalRadiosityFast -- do not edit. -/')
+    t.append('namespace Sparrow.Generated')
+    t.append('/-- `to_dict` entries: (key, attribute). -/')
+    t.append('def toDictKeys : List (String × String) := [' + ', '.join('(%s, %s)' % (lean_str(k), lean_str(a)) for k, a in keys) + ']')
+    t.append('def initParams : List String := ' + lst(init_params))
+    t.append('/-- encoding loop of `to_dict`: None ↦ the string marker, ndarray ↦ nested lists -/')
+    t.append('def toDictEncodesNone : Bool := %s' % ('true' if enc_none else 'false'))
+    t.append('def toDictEncodesArrays : Bool := %s' % ('true' if enc_arr else 'false'))
+    t.append('def fromDictDecodesNone : Bool := %s' % ('true' if dec_dict else 'false'))
+    t.append('def fromReadDecodesNone : Bool := %s' % ('true' if dec_read else 'false'))
+    t.append('def eqComparesToDict : Bool := %s' % ('true' if eq_todict else 'false'))
+    t.append('/-- `__init__` conversion per parameter -/')
+    t.append('def initKinds : List (String × String) := [' + ', '.join('(%s, %s)' % (lean_str(p), lean_str(kinds[p])) for p in init_params) + ']')
+    t.append('/-- attributes (transitively, through properties and self-calls) loaded by each method -/')
+    t.append('def reads : String → List String')
+    for m in API:
+        t.append('  | %s => %s' % (lean_str(m), lst(sorted(full[m][0]))))
+    t.append('  | _ => []')
+    t.append('/-- attributes stored (assigned, element-assigned, or mutated through append/fill) by each method -/')
+    t.append('def writes : String → List String')
+    for m in API:
+        t.append('  | %s => %s' % (lean_str(m), lst(sorted(full[m][1]))))
+    t.append('  | _ => []')
+    t.append('/-- in-place mutation sites whose target is a parameter of a method of the class -/')
+    allmut = sorted({s for m in meths for s in full[m][3]})
+    t.append('def paramMutationSites : List String := ' + lst(allmut))
+    t.append('end Sparrow.Generated')
+    facts = {'to_dict_keys': [k for k, _ in keys], 'reads': {m: sorted(full[m][0]) for m in API},
+             'writes': {m: sorted(full[m][1]) for m in API}, 'param_mutation_sites': allmut,
+             'fromDictDecodesNone': dec_dict, 'eqComparesToDict': eq_todict}
+    return '\n'.join(t) + '\n', facts
